@@ -159,8 +159,8 @@ if (!goog.format) {
 
         // If hit maxCharsBetweenWordBreaks, and not space next, then add <wbr>.
         if (numCharsWithoutBreak >= maxCharsBetweenWordBreaks &&
-            // space
-            charCode != 32) {
+            // space, or the second half of a surrogate pair
+            charCode != 32 && (charCode < 0xDC00 || charCode > 0xDFFF)) {
           resultArr[resultArrLen++] = str.substring(flushIndex, i);
           flushIndex = i;
           resultArr[resultArrLen++] = goog.format.WORD_BREAK;
@@ -215,7 +215,7 @@ if (!goog.format) {
             break;
             // When we see a non-space, increment the numCharsWithoutBreak.
           default:
-            ++numCharsWithoutBreak;
+            if (charCode < 0xDC00 || charCode > 0xDFFF) ++numCharsWithoutBreak;
             break;
           }
         }
